@@ -347,6 +347,44 @@ func Compat(a, b V) bool {
 	return true
 }
 
+// Comparability of two values in TLC: CmpYes (never an error), CmpNo (always "attempted to compare /
+// check equality of X with non-X": different top-level kinds), CmpMurky (same kind, incomparable parts:
+// whether TLC raises depends on sizes and on the order in which it compares).
+const (
+	CmpYes = iota
+	CmpNo
+	CmpMurky
+)
+
+func Comparable(a, b V) int {
+	if a.K == KModel || b.K == KModel {
+		return CmpYes
+	}
+	if a.K != b.K {
+		return CmpNo
+	}
+	if Compat(a, b) {
+		return CmpYes
+	}
+	return CmpMurky
+}
+
+// Normalisable classifies a collection of would-be set elements / function keys.
+func Normalisable(elems []V) int {
+	st := CmpYes
+	for i, x := range elems {
+		for _, y := range elems[i+1:] {
+			switch Comparable(x, y) {
+			case CmpNo:
+				return CmpNo
+			case CmpMurky:
+				st = CmpMurky
+			}
+		}
+	}
+	return st
+}
+
 // WellFormed reports whether TLC can normalise v: all elements of every set, and all keys of every
 // function, are pairwise comparable.
 func WellFormed(v V) bool {
